@@ -38,7 +38,7 @@ def _is_logging_call(node):
     if f.attr not in ("debug", "info", "warning", "error", "exception", "critical", "log"):
         return False
     v = f.value
-    if isinstance(v, ast.Attribute) and v.attr in LOGGER_NAMES:
+    if isinstance(v, ast.Attribute) and (v.attr in LOGGER_NAMES or v.attr.endswith("logger")):
         return True
     if isinstance(v, ast.Name) and v.id in ("logging",) + LOGGER_NAMES:
         return True
@@ -638,7 +638,11 @@ class StmtMixin:
         for cname, fn in inv.clauses:
             v = self.spec_call(fn, self._inv_args(fn, frame, idx, it))
             t = self.truthy(v)
-            self.path.oblige(f"{name}.{cname}", t if not isinstance(t, bool) else z3.BoolVal(t))
+            t = t if not isinstance(t, bool) else z3.BoolVal(t)
+            parts = _split_and(t)
+            for k, part in enumerate(parts):
+                self.path.oblige(f"{name}.{cname}" + (f".{k}" if len(parts) > 1 else ""), part, assume_after=False)
+            self.path.assume(t)
 
     def assume_invariant(self, inv, frame, idx, it):
         for cname, fn in inv.clauses:
@@ -716,6 +720,15 @@ class StmtMixin:
         if v is None:
             raise Unsupported(f"havoc of None-valued local '{hint}' (type unknown)")
         raise Unsupported(f"havoc of {v!r}")
+
+
+def _split_and(t):
+    if z3.is_and(t):
+        out = []
+        for c in t.children():
+            out.extend(_split_and(c))
+        return out
+    return [t]
 
 
 class _ItemsView:
